@@ -406,6 +406,11 @@ Fixpoint apply_lists (F : fops) (h : handle) (pl : list (list point)) (i now : Z
                | x => x
                end
   end.
+(** the bound of the random values must be a number the generator can use: [rand.Intn (max * step / step0 + 1)]
+    needs a positive argument that fits an int (checked before the file is created; without -fill
+    the bound is not used) *)
+Definition gen_max_ok (fill : bool) (mx : Z) : bool := negb fill || ((0 <=? mx) && (mx <? 2^31)).
+
 Definition generate_cmd (F : fops) (existing : bool) (m xff : Z) (layout : list (Z * Z))
   (pl : list (list point)) (now : Z) : status * option handle :=
   if existing then (StErr, None)
@@ -417,3 +422,7 @@ Definition generate_cmd (F : fops) (existing : bool) (m xff : Z) (layout : list 
                    | (_, OutErr) => (StErr, None)
                    end
        end.
+
+Definition generate_checked (F : fops) (existing fill : bool) (mx m xff : Z) (layout : list (Z * Z))
+  (pl : list (list point)) (now : Z) : status * option handle :=
+  if gen_max_ok fill mx then generate_cmd F existing m xff layout pl now else (StErr, None).
